@@ -29,17 +29,18 @@ Property theorems only.  Layers:
 Later layers (same namespace): whole executed spline programs and the executed coupling / autoregressive layers
 (`Properties/C01J.lean`: the returned `ld[b]` is `log|det|` of the Fréchet derivative of the executed row map).
 
-**What no theorem in this namespace covers** (these parts of "every transform" are carried by the correspondence run and the
-Jacobian oracle only; an external audit of the artefact asked for this list): the scalar laws below are about closed forms —
-only Tanh (`tanh_executed_logdet`) is tied to the executed `tanhT`; `sigmoid_logdet` uses the ideal softplus, the executed
-`sigmoidT` the thresholded one; `leakyReluT` takes its `log_negative_slope` attribute as an argument (that it equals
-`log slope` is checked by the correspondence); `glu_logdet` is the arithmetic `D · log g`, not a statement about `gluT`.
-No theorem here for the log-det of `OneByOneConvolution` / 4-D `ActNorm` / `BatchNorm` (the `H·W` factor), QR / SVD / naive /
-Householder layers (their matrix identities are in C11), permutations, squeeze, multiscale, `LogTanh`, `CauchyCDF`, `Logit`, UMNN;
-image-shaped coupling inputs (`S > 1`) have the left-fold form of the log-det but no Jacobian statement; bounded splines are
+**Closed-form vs executed** (external audit): the scalar laws in THIS file are about closed forms; their executed twins — the
+element-wise transformers of `Core/Nonlin.lean` run at `NF.realX e` (`expT`, `affineT`, `gluT`, `leakyReluT`, `sigmoidT` with its
+softplus threshold, `tanhT`, `cauchyT`, `logTanhT`), the element-wise layer loop, the 1×1 convolution, ActNorm 2-D / 4-D,
+BatchNorm in evaluation mode, permutations and squeeze — are in `Properties/C01E.lean`, with counterexample theorems for every
+forced side condition.
+**What no theorem in this namespace covers** (carried by the correspondence run and the Jacobian oracle only): the log-det of
+QR / SVD / naive / Householder layers as Jacobians (their matrix identities `logabsdet = log|det W|` are in C11), multiscale,
+UMNN; image-shaped coupling inputs (`S > 1`) have the left-fold form of the log-det but no Jacobian statement; bounded splines are
 covered strictly inside bins (cubic and RQ-with-tails also at knots), not at the end-points of the box; per-element derivative
 laws inside layers are discharged for affine, additive and RQ(-tails) elements, not for quadratic / cubic / linear ones;
-Fréchet differentiability of a row map through a conditioner is a hypothesis (discharged for constant / affine conditioners).
+Fréchet differentiability of a row map through a conditioner is a hypothesis, discharged for constant / affine conditioners and
+(`Properties/C03ND.lean`) for MADE with a smooth activation in the affine autoregressive layer — not for ReLU networks.
 Arrays are read with `getD`: a conditioner output of the wrong size is read as zeros where PyTorch raises.
 -/
 open DualSound NF
